@@ -181,11 +181,24 @@ def check_obligations(prop, tier):
                     extra = [x for x in axs if x not in allow]
                     if extra:
                         broken.append(dict(name=nm, why='depends on axioms outside the allowlist: ' + ', '.join(extra)))
+    coqchk = None
+    if tier == 'thorough' and good:
+        mods = sorted({'RC.' + o['module'] for o in good})
+        rc, out = rcc.sh(['timeout', '1200', 'coqchk', '-silent', '-o', '-Q', COQ, 'RC'] + mods, check=False, cwd=COQ, timeout=1300)
+        tail = out.strip().splitlines()[-12:]
+        coqchk = dict(rc=rc, modules=mods, tail=tail)
+        axs = re.findall(r'^\s*\*\s*Axioms:\s*(.*)$', out, re.M)
+        if rc != 0:
+            broken.append(dict(name='coqchk', why='coqchk rejected the compiled development: ' + ' | '.join(tail[-4:])))
+        elif axs and not all(a.strip() in ('<none>', '') for a in axs):
+            extra = [a for a in axs if a.strip() not in ('<none>', '')]
+            if any(x.strip() not in allow for a in extra for x in a.split()):
+                broken.append(dict(name='coqchk', why='coqchk reports axioms: ' + '; '.join(extra)))
     fb = scan_forbidden()
     for b in fb:
         broken.append(dict(name='hygiene', why='forbidden construct: ' + b))
     return dict(total=len(mine) + (1 if fb or not ok_regen else 0), broken=broken, names=names, assumptions=assumptions,
-                model_built=model_built, checker_cmd='cd coq && coq_makefile -f _CoqProject -o Makefile && make -j16 (full .vo) ; coqc Print Assumptions per theorem',
+                model_built=model_built, coqchk=coqchk, checker_cmd='cd coq && coq_makefile -f _CoqProject -o Makefile && make -j16 (full .vo) ; coqc Print Assumptions per theorem',
                 make_ok=ok_make)
 
 
